@@ -350,13 +350,42 @@ class Gen:
             first = ('expr', ('asg', lv, self.atom()))
         else:
             first = ('expr', (r.choice(['pre', 'post']), r.choice(['++', '--']), lv))
-        if self.funcs and self.use_calls and r.random() < 0.6:
+        y = r.random()
+        if self.funcs and self.use_calls and y < 0.4:
             mid = ('expr', ('call', r.choice(self.funcs), []))
+        elif y < 0.75:
+            # the variable is overwritten by another route (register store, array element, expression):
+            # whatever the flags said about it before must not survive
+            mid = ('expr', ('asg', lv, r.choice([('var', 'X'), ('var', 'Y'), self.atom(), self.expr(1)]) if self.use_regs else self.atom()))
         else:
             mid = self.assign()
         c = r.choice([lv, ('not', lv), ('cmp', '==', lv, ('num', 0)), ('cmp', '!=', lv, ('num', 0))])
         els = ('block', [self.assign_char()]) if r.random() < 0.4 else None
         return ('block', [first, mid, ('if', c, ('block', [self.assign_char()]), els)])
+
+    def flagprobe_branches(self):
+        """if (c) { [test of a variable of c] } else { [test of a variable of c] }: the generator carries its
+        belief about the flags from the condition into both branches; with several exits (&& ||, 16-bit
+        comparisons) the belief must hold on every one of them"""
+        r = self.rng
+        c = self.cond()
+        names = []
+        def walk(e):
+            if not isinstance(e, tuple):
+                return
+            if e[0] == 'var':
+                names.append(e[1])
+            for x in e[1:]:
+                walk(x)
+        walk(c)
+        names = [n for n in names if n in self.chars or n in ('X', 'Y')] or [r.choice(self.chars)]
+        def test():
+            lv = ('var', r.choice(names))
+            t = r.choice([lv, ('not', lv), ('cmp', '==', lv, ('num', 0)), ('cmp', '!=', lv, ('num', 0))])
+            return ('if', t, ('block', [self.assign_char()]), ('block', [self.assign_char()]) if r.random() < 0.3 else None)
+        then = [test()] if r.random() < 0.5 else [self.assign_char()]
+        els = [test()] if r.random() < 0.8 else [self.assign_char()]
+        return ('if', c, ('block', then), ('block', els))
 
     def loop(self):
         r = self.rng
@@ -398,8 +427,10 @@ class Gen:
         x = r.random()
         self.depth += 1
         try:
-            if self.depth <= 3 and x < 0.07:
+            if self.depth <= 3 and x < 0.05:
                 return self.flagprobe()
+            if self.depth <= 3 and x < 0.09:
+                return self.flagprobe_branches()
             if self.depth > 3 or x < 0.55:
                 return self.assign()
             if x < 0.75:
